@@ -39,6 +39,15 @@ EXPECTED_MISS = {
 EXPECTED_INCONCLUSIVE = {
     'C13-r2-2': 'walker rewritten beyond the shapes read',
     'C15-2': 'printer shape not read',
+    'C01-r7-1': 'reducer with state kept between reductions (a cached '
+                'group tested by membership): the effect language has no '
+                'such condition',
+    'C13-r5-2': 'walkers replaced by a recursive generator (declined '
+                'since round 7; reported earlier only by non-recognition)',
+    'C13-r6-1': 'cycle walker replaced by a topological sort over a '
+                'recursive generator (same)',
+    'C15-r7-2': 'reducer helper with a loop: the effect language has no '
+                'loops',
     'C08-r6-2': 'the gate hands its error back instead of raising it '
                 '(C07.SURFACE / C14.SURFACE report the raise outside the '
                 'gate; C08 declines)',
